@@ -45,7 +45,7 @@ OPS = tuple(p + o for p in ("sm_", "smr_") for o in BASE_OPS)
 LEAN = ["Ymq.Props.C14Small"]
 AUDIT = "Ymq.Audit.C14Small"
 # >>>>>>>>>> PLACEHOLDER: space separated names of the theorems of namespace Ymq.C14Small (to be filled in) <<<<<<<<<<
-THEOREM_NAMES = ("rank_spec rank_profile_independent pseudoinverse_spec pipeline_spec_partial inverse_spec inverse_some_iff inverse_profile_independent transpose_spec mask_spec reverse_spec symmetric_spec identity_spec rank_reverse_spec_partial genblock_never_ends genblock_accepts rank_not_greedy pseudoinverse_unmasked_counterwitness pipeline_nonsymmetric_counterwitness")
+THEOREM_NAMES = ("rank_spec rank_profile_independent pseudoinverse_spec pseudoinverse_no_panic pseudoinverse_sound submatrix_spec pipeline_spec rank_reverse_spec inverse_spec inverse_some_iff inverse_profile_independent transpose_spec mask_spec reverse_spec symmetric_spec identity_spec genblock_never_ends genblock_accepts rank_not_greedy pseudoinverse_unmasked_counterwitness pipeline_nonsymmetric_counterwitness")
 THEOREMS = ["Ymq.C14Small." + t for t in THEOREM_NAMES.split()]
 
 N = 64
@@ -1149,19 +1149,25 @@ GEN = []
 PROFILES = ["release", "chk"]
 TIMEOUT = 30.0
 RULE = RULE_SMALL
-CLAIM = ("Lean theorems, for EVERY size n (the code has n = 64), about the executable model of the 64x64 GF(2) core of matrix/gf2.rs in both "
-         "profiles: rank never panics and returns (rk, mask) with popcount(mask) = rk = Matrix.rank over ZMod 2, the selected original rows "
-         "being linearly independent and spanning the row space (rank_spec; not always the first independent rows: rank_not_greedy); inverse "
-         "never panics, returns a two-sided inverse iff the matrix is invertible and None otherwise, identically in both profiles "
-         "(inverse_spec, inverse_some_iff, inverse_profile_independent); every value returned by pseudoinverse on its documented domain "
-         "(input null outside S x S, S = the mask rank selects) is supported on S x S with W*T = identity on S (pseudoinverse_spec), hence "
-         "W*T*W = W at the call site of kernel_lanczos (pipeline_spec_partial); entrywise specifications of transpose, mask (never fails its "
-         "assertion), reverse, reverse_lane, symmetric, identity; rank_reverse in terms of the reversed matrix (partial); genblock refuses "
-         "every stream whose blocks all have a Gram matrix of rank < 64 and returns the first block of rank 64 (genblock_never_ends, "
+CLAIM = ("Lean theorems, for EVERY size n (the code has n = 64; n <= 256 where the 256-entry index array of pseudoinverse matters), about the "
+         "executable model of the 64x64 GF(2) core of matrix/gf2.rs in both profiles: rank never panics and returns (rk, mask) with "
+         "popcount(mask) = rk = Matrix.rank over ZMod 2, the selected original rows being linearly independent and spanning the row space "
+         "(rank_spec; not always the first independent rows: rank_not_greedy); rank_reverse likewise, with rank and independence stated for M "
+         "itself and the mask being the reversed selection of the reversed matrix (rank_reverse_spec); inverse never panics, returns a "
+         "two-sided inverse iff the matrix is invertible and None otherwise, identically in both profiles (inverse_spec, inverse_some_iff, "
+         "inverse_profile_independent); pseudoinverse on its documented domain (input null outside S x S, S = the mask rank selects; "
+         "symmetry not needed) reaches NO panic site - unwrap of position, the lz assertions, r == 1 << i, both minv.rank() == self.rank() - "
+         "and returns W supported on S x S with W*T = identity on S (pseudoinverse_spec, pseudoinverse_no_panic; pseudoinverse_sound for "
+         "every n); Montgomery's lemma, proved for symmetric matrices over any field, puts every SYMMETRIC matrix masked by rank's or "
+         "rank_reverse's selection into that domain (submatrix_spec: submatrix never panics on symmetric input), so the call site of "
+         "kernel_lanczos on a symmetric Gram matrix reaches no panic site in either profile and direction, including "
+         "debug_assert!(ginv.rank() == (rk, mask)), with rk = rank, W supported on S x S, W*T = 1 on S, W*T*W = W (pipeline_spec); entrywise "
+         "specifications of transpose, mask (never fails its assertion), reverse, reverse_lane, symmetric, identity; genblock refuses every "
+         "stream whose blocks all have a Gram matrix of rank < 64 and returns the first block of rank 64 (genblock_never_ends, "
          "genblock_accepts); counter-witnesses outside the domain (symmetric but unmasked input: unwrap panic in both profiles; non-symmetric "
-         "Gram matrix at the call site: wrong answer in release, assertion in checked). NOT proved (sampled by K/O only): absence of panics of "
-         "pseudoinverse on its domain (pivot existence, the two minv.rank() == self.rank() assertions) and Montgomery's lemma that a symmetric "
-         "matrix masked by rank's selection is in the domain.")
+         "matrix at the call site: wrong answer in release, assertion in checked). NOT proved (checked by the Python oracle only): that "
+         "rank((B^T B)^3) < 64 forces every Gram matrix of genblock below rank 64 (needs the matrix semantics of mul_aab_opt / the block "
+         "products and rank(Y^T A^3 Y) <= rank(A^3)).")
 LEVEL_NOTE = ("The theorems are about the model; the K stream ties it to the code in both profiles (sm_* against the checked build, smr_* "
               "against the release build, panics included); genblock is tied through the recorded stream of random blocks. The Python oracle "
               "judges every implementation answer inside the documented domains by its own elimination.")
